@@ -160,6 +160,7 @@ def run_case(i, tier, seed):
             return {"sig": "prefix-not-in-tree", "evals": 0, "violations": [], "obs": obs, "nontrivial": False}
         obs["schedules"] += r["runs"]
         obs["distinct_interleavings"] += r["distinct"]
+        obs["interleaved"] = obs.get("interleaved", 0) + r["interleaved"]
         obs["threads_compared"] += r["runs"] * nthreads
         obs["deadlocks"] += r["deadlocks"]
         obs["hung"] += r["hung"]
@@ -201,6 +202,7 @@ def run_case(i, tier, seed):
             violations.append({"what": f"[{scenario}, random schedule] {msg}",
                                "detail": {"selections": [repr(x) for x in sels], "trace": [f"{t}:{l}" for t, l in s.trace][:60]}})
     obs["distinct_interleavings"] += len(traces)
+    obs["interleaved"] = obs.get("interleaved", 0) + sum(1 for t in traces if sched.is_interleaved(t))
     return {"sig": f"random|{scenario}|{nthreads}x{nchunks}", "evals": obs["schedules"], "violations": violations[:4], "obs": obs,
             "sample": {"scenario": scenario, "threads": nthreads, "kind": "random schedules", "distinct": len(traces)}}
 
@@ -316,6 +318,6 @@ def finish(results, tier, seed):
     for r in results:
         if isinstance(r.get("sig"), str) and r["sig"].startswith("dfs"):
             per[r["sig"]] = per.get(r["sig"], 0) + r.get("evals", 0)
-    total = sum(r.get("obs", {}).get("distinct_interleavings", 0) for r in results)
+    total = sum(r.get("obs", {}).get("interleaved", 0) for r in results)
     return {"exhaustive": False, "interleavings_enumerated_completely": per, "distinct_nontrivial": total,
             "exhaustive_subdomain": "every interleaving of the yield points of the listed (scenario, threads x chunks) configurations"}
